@@ -19,7 +19,7 @@ def base_cases(thorough):
   for gen, st in ((families.c01_cases(False), step), (families.c02_cases(False), step), (families.c04_cases(False), step * 12)):
     by = {}
     for c in gen:
-      if c.family == 'RECORD-FIELD-ORDER': continue      # recorded under C01 (finding F46)
+      if c.family in families.FINDING_FAMILIES: continue      # recorded under the property of their own check (findings F44, F46)
       by.setdefault(c.family, []).append(c)
     for fam, cs in by.items():
       out += cs[::st]
